@@ -42,7 +42,7 @@ theorem stateFn_plain_byte {sd : StateDef} {m : M κ} {b : UInt8} {arm : Arm}
     stateFn env inp m =
       ((runBody env inp arm.body { m with c := { m.c with nextPos := m.c.nextPos + 1 } }).1,
        (runBody env inp arm.body { m with c := { m.c with nextPos := m.c.nextPos + 1 } }).2.1) := by
-  rw [stateFn_split, hsd]
+  rw [stateFn_preConsume, hsd]
   have hpre : preStep env inp sd m = (m, none) := by unfold preStep; simp [he]
   simp only [hpre]
   unfold consumeStep
@@ -58,7 +58,7 @@ theorem stateFn_memchr_lt {sd : StateDef} {m : M κ} {arm : Arm}
     stateFn env inp m =
       ((runBody env inp arm.body { m with c := { m.c with nextPos := m.c.nextPos + 1 } }).1,
        (runBody env inp arm.body { m with c := { m.c with nextPos := m.c.nextPos + 1 } }).2.1) := by
-  rw [stateFn_split, hsd]
+  rw [stateFn_preConsume, hsd]
   have hpre : preStep env inp sd m = (m, none) := by unfold preStep; simp [he]
   simp only [hpre]
   unfold consumeStep
